@@ -1454,6 +1454,19 @@ def children(t):
     return ()
 
 
+def map_terms(t, fn, _memo=None):
+    """bottom-up rewriting of every sub-term by fn (memoised)"""
+    if _memo is None:
+        _memo = {}
+    if not isinstance(t, tuple) or not t or not isinstance(t[0], str) or t[0] == "const":
+        return t
+    if t in _memo:
+        return _memo[t]
+    out = fn(map_children(t, lambda x: map_terms(x, fn, _memo)))
+    _memo[t] = out
+    return out
+
+
 def map_children(t, fn):
     """Rebuild term t with fn applied to each direct sub-term."""
     k = t[0]
